@@ -43,6 +43,57 @@ def keys_engine(run, tier, seed):
     lineengine.run_engine("keys", ["thorough" if tier == "thorough" else "quick", "-seed", str(seed)], describe, run, timeout=3000)
 
 
+def conc_engine(run, tier, seed):
+    """Runtime part of C15 (supporting evidence, not proof): callbacks assert the lock is held, the loop is
+    probed at every read boundary, concurrent API stress under the race detector with a deadlock watchdog."""
+    import os, subprocess, re
+    import core
+    src = os.path.join(core.VERIF, "engines", "conc", "harness")
+    out = os.path.join(core.BUILD, "eng-conc")
+    os.makedirs(out, exist_ok=True)
+    with core.Lock():
+        core.sh("cp /repo/go.sum go.sum", cwd=src)
+        env = dict(core.GOENV, CGO_ENABLED="1")
+        p = core.sh(["go", "build", "-race", "-o", os.path.join(out, "hc"), "."], cwd=src, env=env, check=False)
+        race = p.returncode == 0
+        if not race:
+            p = core.sh(["go", "build", "-o", os.path.join(out, "hc"), "."], cwd=src, env=core.GOENV, check=False)
+            if p.returncode != 0:
+                run.violations.append({"kind": "build", "what": "concurrency harness does not build against /repo: " + (p.stdout or b"").decode()[-300:],
+                                       "case": None, "op": None, "case_text": "", "expected": None, "actual": None, "step": False})
+                return
+    args = [os.path.join(out, "hc"), "-outdir", os.path.join(out, "logs"), "-seed", str(seed), "-expect-d29=false", "-expect-d43=false", "-expect-d38=true"]
+    if not race:
+        args += ["-norace-reason", "go build -race failed in this environment"]
+    if tier == "thorough":
+        args += ["-dur", "20s", "-iters", "400"]
+    else:
+        args += ["-dur", "3s", "-iters", "60"]
+    p = subprocess.run(args, stdout=subprocess.PIPE, stderr=subprocess.STDOUT, timeout=900, cwd=out)
+    text = p.stdout.decode("utf8", "replace")
+    run.stats["conc_race_detector"] = 1 if race else 0
+    for line in text.splitlines():
+        m = re.match(r"FINDING (\S+) count=(\d+) expected=(\S+)(.*)", line)
+        if m:
+            kind, count, exp, rest = m.group(1), int(m.group(2)), m.group(3), m.group(4)
+            run.stats["conc_finding_" + kind] = count
+            if exp.startswith("yes"):
+                run.known_hits["conc:" + kind] += count
+            else:
+                run.violations.append({"kind": "runtime", "what": "concurrency harness: %s count=%d%s" % (kind, count, rest[:300]),
+                                       "case": "conc:" + kind, "op": None, "case_text": "", "expected": None, "actual": line, "step": False})
+        m = re.match(r"(OK|BAD) (\S+)(.*)", line)
+        if m:
+            run.stats["conc_%s_%s" % (m.group(2), m.group(1))] = 1
+            run.stats["cases"] += 1
+            run.distinct.add(m.group(2))
+            nums = re.findall(r"(\w+)=(\d+)", m.group(3))
+            for k, v in nums[:6]:
+                run.stats["conc_%s_%s" % (m.group(2), k)] = int(v)
+                run.stats["ops_compared"] += int(v) if k in ("ops", "callbacks", "cuts", "probes") else 0
+    run.samples.append({"engine": "conc", "output_tail": text.splitlines()[-12:]})
+
+
 PROPS = {
     "C01": {"tags": [2], "ppref": ("C01",), "batches": [
         B("hostile", 500, 20000, tags=[]), B("mixed", 300, 8000, tags=[]), B("hostile", 150, 4000, modes="1", tags=[])]},
@@ -65,6 +116,7 @@ PROPS = {
     "C12": {"tags": [], "ppref": ("C12",), "batches": [], "extra": [keys_engine]},
     "C13": {"tags": [], "ppref": ("C13",), "batches": [], "extra": [mouse_engine]},
     "C14": {"tags": [4], "ppref": ("C14",), "batches": [B("c14", 600, 15000), B("mixed", 200, 5000)]},
+    "C15": {"tags": [], "ppref": ("C15",), "batches": [B("mixed", 150, 2000, tags=[])], "extra": [conc_engine]},
     "C17": {"tags": ALL, "ppref": ("C17",), "batches": [
         B("c17", 600, 15000, step=True, kinds_wanted=[7, 15])]},
     "C18": {"tags": SCREEN + [7], "ppref": ("C18",), "batches": [
